@@ -413,7 +413,8 @@ def matrix_input(problem):
 
     N = len(problem["assign"])
     k = problem["n_params"]
-    syms = sympy.symbols("x_0:%d" % k, real=True)
+    # names in REVERSE alphabetical order: the parameter order is given by `symbols=`, not by the names
+    syms = [sympy.Symbol("%s_par" % "zyxwv"[j], real=True) for j in range(k)]
     den, ed = problem["den"], problem["eden"]
     H = sympy.diag(*[sympy.Rational(e, ed) + sympy.I * sympy.Rational(im, ed) for e, im in zip(problem["energy"], problem["eimag"])])
     for key, M in problem["terms"].items():
